@@ -47,6 +47,13 @@ func (h *macKeyHistory) deleteKeysAt(del ...int) {
 }
 
 func (h *macKeyHistory) addKeys(ourKeyID uint32, theirKeyID uint32, receivingMACKey macKey) {
+	for _, k := range h.items {
+		if k.ourKeyID == ourKeyID && k.theirKeyID == theirKeyID {
+			// one record per key pair is enough, however many messages use it
+			return
+		}
+	}
+
 	macKeys := macKeyUsage{
 		ourKeyID:     ourKeyID,
 		theirKeyID:   theirKeyID,
